@@ -829,7 +829,9 @@ def find_fn_directive(unit, name):
 
 
 def parse_target(target):
-    parts = [p.strip() for p in target.split("::")]
+    # separators are ` :: ` (spaces on both sides); a `::` without spaces belongs to a path inside an impl header
+    # (`impl core::fmt::Display for X`)
+    parts = [p.strip() for p in re.split(r"\s::\s", target)] if re.search(r"\s::\s", target) else [p.strip() for p in target.split("::")]
     # first part is the file; re-join things like `impl From<A> for B` that contain no '::'
     path = parts[0]
     spec = parts[1:]
